@@ -124,6 +124,28 @@ def check_case(acc, case) -> list[dict]:
     func = case.get("func", "default")
     text = build_doc(case)
     settings = {"myst_heading_anchors": depth}
+    tmp_inc = None
+    parse_kw = {}
+    N = case.get("inc_offset") or 0
+    if N:
+        # the same headings, written N levels higher in a file that is included with ':heading-offset: N': the document is
+        # the same document, so anchors (depth limit, suffixes) are those of the flat text
+        flat = text
+        tmp_inc = tempfile.mkdtemp(prefix="verif-c10-")
+        with open(os.path.join(tmp_inc, "inc.md"), "w") as fh:
+            fh.write(build_doc({**case, "heads": [{**h, "level": h["level"] - N} for h in case["heads"]]}))
+        text = "```{include} inc.md\n:heading-offset: " + str(N) + "\n```\n"
+        parse_kw = {"source_path": os.path.join(tmp_inc, "main.md")}
+    try:
+        return _check_case(acc, case, mk, depth, func, text, settings, parse_kw, flat if N else text)
+    finally:
+        if tmp_inc:
+            shutil.rmtree(tmp_inc, ignore_errors=True)
+
+
+def _check_case(acc, case, mk, depth, func, text, settings, parse_kw, flat) -> list[dict]:
+    from docutils import nodes
+
     if FUNCS[func]:
         settings["myst_heading_slug_func"] = FUNCS[func]
     # ---- model
@@ -150,7 +172,7 @@ def check_case(acc, case) -> list[dict]:
     vs = []
     # ---- first pass: what slugs are assigned
     try:
-        doc1, warn1 = front.docutils_parse(text, settings=settings)
+        doc1, warn1 = front.docutils_parse(text, settings=settings, **parse_kw)
     except Exception as exc:  # noqa: BLE001
         return [mk(f"C10:render-raises:{type(exc).__name__}", case, "document", f"{type(exc).__name__}: {exc}")]
     heads = []
@@ -188,7 +210,7 @@ def check_case(acc, case) -> list[dict]:
     # ---- CLI agreement (default function only; level 0 prints nothing and is skipped by the CLI's plugin)
     if func == "default" and 1 <= depth:
         try:
-            cli = cli_anchors(text, depth)
+            cli = cli_anchors(flat, depth)
         except Exception as exc:  # noqa: BLE001
             cli = None
             vs.append(mk(f"C10:cli-raises:{type(exc).__name__}", case, "anchors", str(exc)))
@@ -227,7 +249,7 @@ def check_case(acc, case) -> list[dict]:
         real = writable
         links = "\n\n".join(f"L{i} [](<#{g}>)" for i, g in real)
         try:
-            doc2, warn2 = front.docutils_publish(text + "\n" + links + "\n", settings=settings)
+            doc2, warn2 = front.docutils_publish(text + "\n" + links + "\n", settings=settings, **parse_kw)
         except Exception as exc:  # noqa: BLE001
             return vs + [mk(f"C10:publish-raises:{type(exc).__name__}", case, "document",
                             f"{type(exc).__name__}: {exc}")]
@@ -284,6 +306,25 @@ def sub_enum(acc, shard, nshards, tier, seed):
                     acc.known_hits[v["signature"]] += 1
                 elif len(acc.violations) < 8 and all(v["signature"] != w["signature"] for w in acc.violations):
                     acc.violations.append(v)
+    # the same through an include with a heading offset: every sequence of <= 3 headings over levels 2-4, offsets 1 and 2
+    # (levels stay >= 1 in the file), every anchor depth 1-4
+    for n in range(1, 4):
+        for seq in itertools.product(SIX[:3], repeat=n):
+            for lv in itertools.product((2, 3, 4), repeat=n):
+                for off in (1, 2):
+                    if min(lv) - off < 1:
+                        continue
+                    for depth in (1, 2, 3, 4):
+                        i += 1
+                        if i % nshards != shard:
+                            continue
+                        case = {"heads": [{"level": L, "md": md, "text": tx} for L, (md, tx) in zip(lv, seq)],
+                                "depth": depth, "func": "default", "inc_offset": off}
+                        for v in check_case(acc, case):
+                            if kn.matches(v):
+                                acc.known_hits[v["signature"]] += 1
+                            elif len(acc.violations) < 8 and all(v["signature"] != w["signature"] for w in acc.violations):
+                                acc.violations.append(v)
     acc.exhaustive = tier == "thorough"
 
 
